@@ -24,7 +24,7 @@ from geneticengine.algorithms.gp.operators.selection import TournamentSelection
 from geneticengine.algorithms.hill_climbing import HC
 from geneticengine.algorithms.one_plus_one import OnePlusOne
 from geneticengine.algorithms.random_search import RandomSearch
-from geneticengine.evaluation.budget import AnyOf, EvaluationBudget, TargetFitness
+from geneticengine.evaluation.budget import AnyOf, EvaluationBudget, SearchBudget, TargetFitness
 from geneticengine.evaluation.sequential import SequentialEvaluator
 from geneticengine.evaluation.tracker import MultiObjectiveProgressTracker, SingleObjectiveProgressTracker
 from geneticengine.problems import MultiObjectiveProblem, SingleObjectiveProblem
@@ -227,6 +227,49 @@ def check_evaluation_budgets(h: Harness):
     h.exhaustive = True
 
 
+def check_parallel_evaluator(h: Harness):
+    """the evaluation budget counts what the evaluator counted: with the PARALLEL evaluator and an
+    algorithm that submits several new individuals per call (hill climbing), the search must still
+    stop at the first check with at least n fitness-function invocations (n <= total < n + m)"""
+    import os
+    import tempfile
+    from geneticengine.evaluation.parallel import ParallelEvaluator
+    from props.eval_common import FileLog, logging_ff
+    rng = h.rng
+    with tempfile.TemporaryDirectory(prefix="c14par-") as tmp:
+        for (m, n) in ([(3, 6), (4, 5)] if not h.thorough else [(2, 5), (3, 6), (4, 5), (5, 11), (3, 10)]):
+            log = FileLog(os.path.join(tmp, f"hc-{m}-{n}.log"))
+            keys = [rng.randint(0, 30) for _ in range(60)]
+            problem = SingleObjectiveProblem(logging_ff(log, 0, lambda k: float(k)), minimize=False)
+            tracker = SingleObjectiveProgressTracker(problem, ParallelEvaluator())
+            alg = HC(problem, AnyOf(EvaluationBudget(n), CheckCapBudget(6 * n + 20)), MutationOnlyRep(keys), NativeRandomSource(rng.randrange(10**6)),
+                     tracker, number_of_mutations=m)
+            try:
+                alg.search()
+            except Exception as e:  # noqa: BLE001
+                h.notes.append(f"parallel HC raised {type(e).__name__}: {e}")
+                continue
+            total = len(log.read())
+            counted = tracker.get_number_evaluations()
+            h.seen(f"parallel-hc:{m}:{n}")
+            h.count("parallel-hc-runs")
+            if not (n <= total < n + m) or counted != total:
+                h.fail("HC.search[ParallelEvaluator]", "stops-late-or-early",
+                       f"HC(number_of_mutations={m}, EvaluationBudget({n})) on the parallel evaluator: the fitness function was invoked {total} times "
+                       f"(expected {n} <= total < {n + m}), the tracker reports {counted} evaluations", {"m": m, "n": n})
+
+
+class CheckCapBudget(SearchBudget):
+    """guard against non-termination: done after `cap` checks"""
+
+    def __init__(self, cap):
+        self.left = cap
+
+    def is_done(self, tracker):
+        self.left -= 1
+        return self.left < 0
+
+
 def check_target_and_anyof(h: Harness):
     rng = h.rng
     runs = h.n(120, 1500)
@@ -287,3 +330,4 @@ def check_target_and_anyof(h: Harness):
 def run(h: Harness):
     check_evaluation_budgets(h)
     check_target_and_anyof(h)
+    check_parallel_evaluator(h)
